@@ -28,6 +28,7 @@ import (
 	"net/netip"
 	"os"
 	"path/filepath"
+	"runtime"
 	"sort"
 	"strconv"
 	"strings"
@@ -101,8 +102,52 @@ func (e *zzC12Env) newDBFile() (fn string) {
 	return filepath.Join(e.dir, fmt.Sprintf("sessions-%d.db", e.nfile))
 }
 
-// zzC12Login sends one login request through the mux.
-func (e *zzC12Env) login(rng *rand.Rand, ip netip.Addr, ok bool) (out, cookie, detail string) {
+// zzC12Trusted is the trusted-proxy set the way initUsers builds it from the
+// (default) configuration.
+func zzC12Trusted() (set netutil.SliceSubnetSet) {
+	return netutil.SliceSubnetSet(netutil.UnembedPrefixes(config.DNS.TrustedProxies))
+}
+
+// zzC12InPrefix returns a seeded address inside p.
+func zzC12InPrefix(rng *rand.Rand, p netip.Prefix) (a netip.Addr) {
+	b := p.Masked().Addr().AsSlice()
+	for i := p.Bits(); i < len(b)*8; i++ {
+		if rng.Intn(2) == 0 {
+			b[i/8] |= 1 << (7 - i%8)
+		}
+	}
+
+	a, _ = netip.AddrFromSlice(b)
+
+	return a
+}
+
+// zzC12Claim concretises what a request claims about its origin.  other is
+// the address of another modelled client.
+func zzC12Claim(rng *rand.Rand, kind string, other netip.Addr) (a netip.Addr) {
+	switch kind {
+	case "peer":
+		return other
+	case "trusted":
+		if ps := zzC12Trusted(); len(ps) > 0 {
+			return zzC12InPrefix(rng, ps[rng.Intn(len(ps))])
+		}
+
+		return netip.MustParseAddr("127.0.0.1")
+	case "untrusted":
+		if rng.Intn(2) == 0 {
+			return netip.MustParseAddr(fmt.Sprintf("2001:db8:ffff::%x", rng.Intn(0xfffe)+1))
+		}
+
+		return netip.MustParseAddr(fmt.Sprintf("198.51.100.%d", rng.Intn(250)+1))
+	default:
+		return netip.Addr{}
+	}
+}
+
+// zzC12Login sends one login request through the mux: from peer ip, claiming
+// (in one of the forwarding headers) to originate from claim, if valid.
+func (e *zzC12Env) login(rng *rand.Rand, ip netip.Addr, ok bool, claim netip.Addr) (out, cookie, detail string) {
 	name, pass := zzC12User, zzC12Pass
 	if !ok {
 		// A failed login is a wrong password or an unknown user name.
@@ -118,11 +163,15 @@ func (e *zzC12Env) login(rng *rand.Rand, ip netip.Addr, ok bool) (out, cookie, d
 	r.Header.Set("Content-Type", "application/json")
 	r.RemoteAddr = netip.AddrPortFrom(ip, uint16(1024+rng.Intn(60000))).String()
 	// Client-controlled headers must not change who is being throttled.
-	switch rng.Intn(4) {
-	case 0:
-		r.Header.Set("X-Real-IP", fmt.Sprintf("198.51.100.%d", rng.Intn(250)+1))
-	case 1:
-		r.Header.Set("X-Forwarded-For", fmt.Sprintf("203.0.113.%d, 10.0.0.1", rng.Intn(250)+1))
+	hdr := ""
+	if claim.IsValid() {
+		hdr = []string{"X-Real-IP", "CF-Connecting-IP", "True-Client-IP", "X-Forwarded-For"}[rng.Intn(4)]
+		val := claim.String()
+		if hdr == "X-Forwarded-For" && rng.Intn(2) == 0 {
+			val += ", 10.0.0.1"
+		}
+
+		r.Header.Set(hdr, val)
 	}
 
 	w := httptest.NewRecorder()
@@ -135,6 +184,9 @@ func (e *zzC12Env) login(rng *rand.Rand, ip netip.Addr, ok bool) (out, cookie, d
 	}
 
 	detail = fmt.Sprintf("status=%d retry-after=%q remote=%s", w.Code, res.Header.Get("Retry-After"), r.RemoteAddr)
+	if hdr != "" {
+		detail += fmt.Sprintf(" %s=%q", hdr, r.Header.Get(hdr))
+	}
 	switch {
 	case w.Code == http.StatusOK && cookie != "":
 		out = "ok"
@@ -220,7 +272,7 @@ func (s *zzC12RL) reset(seed int64) {
 	}
 
 	rl := newAuthRateLimiter(time.Duration(s.b)*s.tick, uint(s.n))
-	s.auth = InitAuth(s.env.newDBFile(), s.env.users, 3600, rl, netutil.SliceSubnetSet(nil))
+	s.auth = InitAuth(s.env.newDBFile(), s.env.users, 3600, rl, zzC12Trusted())
 	if s.auth == nil {
 		s.env.t.Fatalf("InitAuth failed")
 	}
@@ -235,13 +287,26 @@ func (s *zzC12RL) close() {
 	}
 }
 
+// other returns the address of a modelled client different from nm.
+func (s *zzC12RL) other(nm string) (a netip.Addr) {
+	for i, x := range s.names {
+		if x == nm {
+			return s.addrs[s.names[(i+1)%len(s.names)]]
+		}
+	}
+
+	return netip.Addr{}
+}
+
 func (s *zzC12RL) describe() (d string) { return fmt.Sprintf("addrs=%v tick=%s", s.addrs, s.tick) }
 
 func (s *zzC12RL) do(act string, seed int64) (out, detail string) {
 	f := strings.Fields(act)
 	switch f[0] {
 	case "attempt":
-		out, _, detail = s.env.login(rand.New(rand.NewSource(seed)), s.addrs[f[1]], f[2] == "ok")
+		// attempt <peer> <claim> <ok|bad>
+		rng := rand.New(rand.NewSource(seed))
+		out, _, detail = s.env.login(rng, s.addrs[f[1]], f[3] == "ok", zzC12Claim(rng, f[2], s.other(f[1])))
 
 		return out, detail
 	case "tick":
@@ -370,7 +435,7 @@ func zzC12RandHex(rng *rand.Rand) (s string) {
 func (s *zzC12AU) open() {
 	// Production-like limiter; logins in this half always succeed.
 	rl := newAuthRateLimiter(time.Duration(config.AuthBlockMin)*time.Minute, config.AuthAttempts)
-	s.auth = InitAuth(s.fn, s.env.users, uint32(int64(s.ttl)*s.unit), rl, netutil.SliceSubnetSet(nil))
+	s.auth = InitAuth(s.fn, s.env.users, uint32(int64(s.ttl)*s.unit), rl, zzC12Trusted())
 	if s.auth == nil {
 		s.env.t.Fatalf("InitAuth failed")
 	}
@@ -412,7 +477,7 @@ func (s *zzC12AU) do(act string, seed int64) (out, detail string) {
 	switch f[0] {
 	case "login":
 		var cookie string
-		out, cookie, detail = s.env.login(rng, zzC12RandAddr(rng, 7), true)
+		out, cookie, detail = s.env.login(rng, zzC12RandAddr(rng, 7), true, netip.Addr{})
 		if out == "ok" {
 			s.tokens[f[1]] = cookie
 		}
@@ -423,6 +488,10 @@ func (s *zzC12AU) do(act string, seed int64) (out, detail string) {
 	case "logout":
 		// The reply of a logout is not part of the property.
 		return "ok", s.env.logout(s.cookieFor(f[1], rng))
+	case "race":
+		// race <t> <u>: a logout of t concurrent with a request carrying u;
+		// the reply is the request's.
+		return s.race(s.cookieFor(f[1], rng), s.cookieFor(f[2], rng), rng)
 	case "restart":
 		s.auth.Close()
 		s.open()
@@ -436,6 +505,110 @@ func (s *zzC12AU) do(act string, seed int64) (out, detail string) {
 	default:
 		return "unknown-act", act
 	}
+}
+
+//go:noinline
+func zzC12RaceLogoutG(f func(), done chan struct{}) { defer close(done); f() }
+
+//go:noinline
+func zzC12RaceUseG(f func(), done chan struct{}) { defer close(done); f() }
+
+// zzC12Settled waits until the goroutine running fn (a function name that
+// appears in its stack) has finished or is parked waiting for a lock.
+func zzC12Settled(fn string, done chan struct{}) (state string) {
+	buf := make([]byte, 1<<18)
+	for i := 0; i < 20000; i++ {
+		select {
+		case <-done:
+			return "done"
+		default:
+		}
+
+		if i%8 == 7 {
+			for _, g := range strings.Split(string(buf[:runtime.Stack(buf, true)]), "\n\n") {
+				if !strings.Contains(g, fn+"(") {
+					continue
+				}
+
+				_, st, _ := strings.Cut(g, "[")
+				st, _, _ = strings.Cut(st, "]")
+				if strings.Contains(st, "sync.") || strings.Contains(st, "semacquire") {
+					return "parked:" + st
+				}
+			}
+		}
+
+		runtime.Gosched()
+	}
+
+	return "unsettled"
+}
+
+// race runs a logout of lv concurrently with a request carrying uv.  The
+// interleaving is forced by making both arrive while a resource they need is
+// busy -- the sessions mutex or the database's (single) write transaction,
+// held by the harness -- in a seeded arrival order; waiters are served in
+// arrival order when the resource is released.  The logout is sent to the
+// HTTP handler itself or through the mux (whose auth wrapper first looks the
+// session up, and thereby prolongs it).
+func (s *zzC12AU) race(lv, uv string, rng *rand.Rand) (out, detail string) {
+	sched := []int{0, 1, 2, 3, 3, 3, 4, 4}[rng.Intn(8)]
+	direct := rng.Intn(4) != 0
+	a := s.auth
+
+	doneL, doneU := make(chan struct{}), make(chan struct{})
+	var lDetail, uDetail string
+	logout := func() {
+		if !direct {
+			lDetail = s.env.logout(lv)
+
+			return
+		}
+
+		r := httptest.NewRequest(http.MethodGet, "/control/logout", nil)
+		r.RemoteAddr = "192.0.2.200:4446"
+		r.AddCookie(&http.Cookie{Name: sessionCookieName, Value: lv})
+		w := httptest.NewRecorder()
+		handleLogout(w, r)
+		lDetail = fmt.Sprintf("status=%d", w.Code)
+	}
+	use := func() { out, uDetail = s.env.useCookie(uv) }
+
+	var tx *bbolt.Tx
+	switch sched {
+	case 1, 2:
+		a.lock.Lock()
+	case 3, 4:
+		var err error
+		if tx, err = a.db.Begin(true); err != nil {
+			return "gate-error", err.Error()
+		}
+	}
+
+	var st1, st2 string
+	if sched == 1 || sched == 4 {
+		go zzC12RaceUseG(use, doneU)
+		st1 = zzC12Settled("zzC12RaceUseG", doneU)
+		go zzC12RaceLogoutG(logout, doneL)
+		st2 = zzC12Settled("zzC12RaceLogoutG", doneL)
+	} else {
+		go zzC12RaceLogoutG(logout, doneL)
+		st1 = zzC12Settled("zzC12RaceLogoutG", doneL)
+		go zzC12RaceUseG(use, doneU)
+		st2 = zzC12Settled("zzC12RaceUseG", doneU)
+	}
+
+	switch sched {
+	case 1, 2:
+		a.lock.Unlock()
+	case 3, 4:
+		_ = tx.Rollback()
+	}
+
+	<-doneL
+	<-doneU
+
+	return out, fmt.Sprintf("sched=%d direct=%t first=%s second=%s logout:%s use:%s", sched, direct, st1, st2, lDetail, uDetail)
 }
 
 // zzC12Sessions projects the live sessions of memory and of the file:
@@ -1038,14 +1211,14 @@ func zzC12TraceRL(env *zzC12Env, w *zzWriter, k, steps int) {
 			return m
 		}
 
-		line := func(kind, a string, ok bool, d int64, res string, pre, post map[string][2]int64, detail string) {
-			w.put(map[string]any{"tr": k, "k": kind, "a": a, "ok": ok, "d": d, "now": nowMS(), "n": n,
+		line := func(kind, a, claim string, ok bool, d int64, res string, pre, post map[string][2]int64, detail string) {
+			w.put(map[string]any{"tr": k, "k": kind, "a": a, "c": claim, "ok": ok, "d": d, "now": nowMS(), "n": n,
 				"b": bms, "w": wms, "res": res, "pre": pre, "post": post, "detail": detail,
 				"concrete": sys.describe()})
 		}
 
 		pre := proj()
-		line("reset", "", false, 0, "none", pre, pre, "")
+		line("reset", "", "", false, 0, "none", pre, pre, "")
 		focus := names[rng.Intn(len(names))]
 		for i := 0; i < steps; i++ {
 			pre = proj()
@@ -1060,8 +1233,9 @@ func zzC12TraceRL(env *zzC12Env, w *zzWriter, k, steps int) {
 				}
 
 				ok := rng.Intn(6) == 0
-				out, _, detail := env.login(rng, sys.addrs[a], ok)
-				line("attempt", a, ok, 0, out, pre, proj(), detail)
+				claim := []string{"none", "none", "none", "peer", "trusted", "trusted", "untrusted"}[rng.Intn(7)]
+				out, _, detail := env.login(rng, sys.addrs[a], ok, zzC12Claim(rng, claim, sys.other(a)))
+				line("attempt", a, claim, ok, 0, out, pre, proj(), detail)
 
 				continue
 			}
@@ -1110,7 +1284,7 @@ func zzC12TraceRL(env *zzC12Env, w *zzWriter, k, steps int) {
 			}
 
 			time.Sleep(time.Duration(d) * time.Millisecond)
-			line("tick", "", false, d, "none", pre, proj(), "")
+			line("tick", "", "", false, d, "none", pre, proj(), "")
 		}
 	})
 }
